@@ -23,11 +23,12 @@ from ..runner import CaseResult, digest
 from .c08 import abs_key
 
 ID = "C07"
-CALLS = [("sweep", ("a",)), ("link", ("a", "b")), ("mark", ("w",)), ("bump", ())]
+CALLS = [("sweep", ("a",)), ("link", ("a", "b")), ("mark", ("w",)), ("bump", ()), ("sweep", ("b",))]
+BFS_CALLS = 4  # the history alphabet uses the first four; the fifth (a second quantified call) is for the thread pairs
 FLAGS = [{}, {"skip_validation": True}, {"allow_inapplicable_actions": True}]
 RULE = ("histories: cond mini-domain (forall precondition, forall-when / when / numeric effects, constant); events: "
         "apply(call, state j, flags) [4 calls x <= 3 live states x 3 flag sets], is_applicable(call, j), re-apply(earlier "
-        "operator i, j), print preconditions, export domain, serialize(j), parse_plan([call]), parse another typed / untyped "
+        "operator i, j), print preconditions, export domain, serialize(j), parse_plan([call]), run an unrelated numeric domain (repeated object in a function term), parse another typed / untyped "
         "domain, combine agent domains, query a same-named variant domain with the same call; BFS to depth 3 (quick) / 4 (thorough), one case per first event, worlds "
         "de-duplicated on (live states, live operators' calls); schedules: thread A apply(call1,s0) || thread B in "
         "{apply(call2,s0), is_applicable(call3,s0), export}, all single pre-emptions at every library line "
@@ -46,7 +47,7 @@ OTHER_U = "(define (domain o2) (:predicates (zq ?a)) (:action zb :parameters (?a
 def events(n_states, n_ops):
     ev = []
     for j in range(n_states):
-        for ci in range(len(CALLS)):
+        for ci in range(BFS_CALLS):
             ev.append(["is_applicable", ci, j])
             for fi in range(len(FLAGS)):
                 ev.append(["apply", ci, j, fi])
@@ -55,7 +56,7 @@ def events(n_states, n_ops):
             ev.append(["reapply", oi, j])
             ev.append(["requery", oi, j])
     ev += [["print"], ["export"], ["parse_plan", 0], ["parse_plan", 1], ["parse_other", "typed"], ["parse_other", "untyped"],
-           ["combine"], ["variant", 0], ["variant", 1]]
+           ["combine"], ["variant", 0], ["variant", 1], ["other_numeric"]]
     return ev
 
 
@@ -63,7 +64,7 @@ def cases(tier):
     depth = 3 if tier == "quick" else 4
     for e in events(1, 0):
         yield {"kind": "bfs", "first": e, "depth": depth}
-    pairs = [(0, ("apply", 1)), (0, ("is_applicable", 3)), (0, ("export",)), (1, ("apply", 2))]
+    pairs = [(0, ("apply", 1)), (0, ("is_applicable", 4)), (0, ("export",)), (1, ("apply", 2)), (4, ("is_applicable", 0))]
     for pi, (a, b) in enumerate(pairs):
         for first in (0, 1):
             for chunk in range(8):
@@ -215,6 +216,17 @@ def do_event(w: WorldC07, e):
         a2 = ref_answer(VS, vobjs, e[1], VRP.state(), "apply", {"skip_validation": True})
         w.expected = [a1, a2] if a1 is not None and a2 is not None else None
         return ("variant", e[1]), show(guard(q))
+    if kind == "other_numeric":
+        # an unrelated numeric domain; the call binds one object to both parameters of a function term
+        ndt, npt = md.ALL["numeric"]
+
+        def q():
+            N = parse_domain(ndt)
+            NP = parse_problem(npt, N)
+            from pddl_plus_parser.multi_agent.common import create_initial_state
+            s1 = operator(N, "xfer", ["b", "b"], NP.objects).apply(create_initial_state(NP))
+            return observe_state(s1).to_json()
+        return ("other_numeric",), show(guard(q))
     if kind == "combine":
         from pathlib import Path
         from pddl_plus_parser.multi_agent import MultiAgentDomainsConverter
@@ -365,13 +377,15 @@ def thread_fns(w, a, b):
     s0 = w.states[0]
 
     def fa():
-        return observe_state(operator(w.D, name, list(args), w.P.objects).apply(s0, skip_validation=True)).to_json()
+        op = operator(w.D, name, list(args), w.P.objects)
+        return [op.is_applicable(s0), observe_state(op.apply(s0, skip_validation=True)).to_json()]
 
     if b[0] == "apply":
         n2, a2 = CALLS[b[1]]
 
         def fb():
-            return observe_state(operator(w.D, n2, list(a2), w.P.objects).apply(s0, skip_validation=True)).to_json()
+            op = operator(w.D, n2, list(a2), w.P.objects)
+            return [op.is_applicable(s0), observe_state(op.apply(s0, skip_validation=True)).to_json()]
     elif b[0] == "is_applicable":
         n2, a2 = CALLS[b[1]]
 
